@@ -5,8 +5,9 @@
 
    after step s0 h o   = observation of operation o after the history h, started in s0
    observation         = (returned normally / Fit returned the estimator, get_params, fitted model, exception) *)
-From Coq Require Import ZArith List Bool.
-From FL Require Import Lifecycle Lifecycle_proofs.
+From Coq Require Import String ZArith List Bool.
+From FL Require Import Lifecycle Lifecycle_proofs LifecycleSrc LifecycleSrc_proofs.
+From FLGen Require Gen_lifecycle.
 Import ListNotations.
 Open Scope Z_scope.
 
@@ -247,6 +248,165 @@ Theorem C19_clone_fresh_ExponentiatedGradient_partial :
               = trace (eg_step nu_of train) (e_init (e_par s) (e_nu s)) h.
 Proof. exact e_clone_fresh_partial. Qed.
 Print Assumptions C19_clone_fresh_ExponentiatedGradient_partial.
+
+(* ================================================================== tie to the source
+   translators/t_lifecycle.py regenerates Gen_lifecycle.src from /repo on every run: per estimator (abstract
+   execution of fit and of the methods of the same class it refers to) whether every path returns self, which
+   constructor attributes are written, which attributes are read before this call assigned them, which are
+   mutated in place, which callables receive the estimator; the guard of `self.nu = ...`; Moment.load_data's
+   latch; who loads the moments; the adversarial re-initialisation tables; __init_model__ on a user module;
+   .eval() / .train() before the forward passes.  model_src is what Lifecycle.v was written from. *)
+Theorem C19_source_tie : Gen_lifecycle.src = model_src.
+Proof. reflexivity. Qed.
+Print Assumptions C19_source_tie.
+
+(* the switches read off the regenerated description *)
+Theorem C19_source_switches :
+  sw_to Gen_lifecycle.src = sw_now /\ sw_gs Gen_lifecycle.src = sw_now /\ sw_latch Gen_lifecycle.src = false /\
+  sw_nu Gen_lifecycle.src = Some WriteNuIfNone /\
+  (forall f w, sw_reinit Gen_lifecycle.src f w = negb f || negb w) /\
+  sw_in_place Gen_lifecycle.src = true /\ sw_eval_first Gen_lifecycle.src = true /\
+  fs_returns_self (ls_to Gen_lifecycle.src) = true /\ fs_returns_self (ls_eg Gen_lifecycle.src) = true /\
+  fs_returns_self (ls_gs Gen_lifecycle.src) = true /\ fs_returns_self (ls_cr Gen_lifecycle.src) = true /\
+  fs_returns_self (ls_adv Gen_lifecycle.src) = true.
+Proof. exact src_switches. Qed.
+Print Assumptions C19_source_switches.
+
+(* the machines determined by the regenerated switches ARE the machines of all theorems above *)
+Theorem C19_source_step_ThresholdOptimizer :
+  forall (P D M : Type) (train : P -> D -> M) (rebind : P -> D -> P) (carry : M -> M -> M) (p : P) (h : list (op D)),
+    trace (x_step train rebind carry (sw_to Gen_lifecycle.src)) (g_init p) h = trace (s_step train) (s_init p) h.
+Proof. exact src_step_to. Qed.
+Print Assumptions C19_source_step_ThresholdOptimizer.
+
+Theorem C19_source_step_GridSearch :
+  forall (P D M : Type) (train : P -> D -> M) (rebind : P -> D -> P) (carry : M -> M -> M) (s : gst P M) (o : op D),
+    x_step train rebind carry (sw_gs Gen_lifecycle.src) s o = gs_step train s o.
+Proof. exact src_step_gs. Qed.
+Print Assumptions C19_source_step_GridSearch.
+
+Theorem C19_source_step_ExponentiatedGradient :
+  forall (P N D M : Type) (nu_of : P -> D -> N) (train : P -> N -> D -> M) (rule : nu_rule) (s : est P N M) (o : op D),
+    sw_nu Gen_lifecycle.src = Some rule ->
+    e_step_gen nu_of train (sw_latch Gen_lifecycle.src) rule s o = eg_step nu_of train s o.
+Proof. exact src_step_eg. Qed.
+Print Assumptions C19_source_step_ExponentiatedGradient.
+
+Theorem C19_source_step_Adversarial :
+  forall (P D M : Type) (ws : P -> bool) (init_net : P -> D -> M) (train_from : P -> M -> D -> M) (perturb : M -> M)
+         (s : ast P M) (o : op D),
+    a_step_gen ws init_net train_from perturb (sw_reinit Gen_lifecycle.src) (sw_in_place Gen_lifecycle.src)
+               (sw_eval_first Gen_lifecycle.src) s o
+      = adv_step ws init_net train_from s o.
+Proof. exact src_step_adv. Qed.
+Print Assumptions C19_source_step_Adversarial.
+
+(* the property stated directly on the regenerated switches *)
+Theorem C19_source_history_independent :
+  forall (P D M : Type) (train : P -> D -> M) (rebind : P -> D -> P) (carry : M -> M -> M) (p : P) (h : list (op D)) (d : D),
+    after (x_step train rebind carry (sw_to Gen_lifecycle.src)) (g_init p) h (Fit d)
+      = mkObs true p (Some (train p d)) None /\
+    after (x_step train rebind carry (sw_gs Gen_lifecycle.src)) (g_init p) h (Fit d)
+      = mkObs true p (Some (train p d)) None.
+Proof. exact src_history_independent. Qed.
+Print Assumptions C19_source_history_independent.
+
+Theorem C19_source_history_independent_Adversarial :
+  forall (P D M : Type) (ws : P -> bool) (user_net : P -> option M) (init_net : P -> D -> M)
+         (train_from : P -> M -> D -> M) (perturb : M -> M) (p : P) (h : list (op D)) (d : D),
+    ws p = false -> user_net p = None ->
+    after (a_step_gen ws init_net train_from perturb (sw_reinit Gen_lifecycle.src) (sw_in_place Gen_lifecycle.src)
+                      (sw_eval_first Gen_lifecycle.src)) (a_init user_net p) h (Fit d)
+      = mkObs true (p, None) (Some (train_from p (init_net p d) d)) None.
+Proof. exact src_history_independent_adv. Qed.
+Print Assumptions C19_source_history_independent_Adversarial.
+
+(* ------------------------------------------------------------------ the switches matter: on the free
+   instances the property holds for EXACTLY the values the current source has *)
+(* latch / returns self / rebinds a constructor attribute / carries fitted state over *)
+Theorem C19_switches_characterised :
+  forall w : switches,
+    (forall (h : list (op Z)) (d : Z),
+        after (x_step sym_trainl sym_rebind sym_carry w) (g_init 0) h (Fit d)
+          = mkObs true 0 (Some (sym_trainl 0 d)) None)
+    <-> w = sw_now.
+Proof. exact x_switches_characterised. Qed.
+Print Assumptions C19_switches_characterised.
+
+(* the guard of `self.nu = ...`: only a fit that does not write nu (the repair of F7a) has the full
+   property, nu = None included *)
+Theorem C19_nu_rule_characterised :
+  forall rule : nu_rule,
+    (forall (nu : option (Z * Z)) (h : list (op Z)) (d : Z),
+        after (e_step_gen sym_nu_of sym_train_eg false rule) (e_init 0 nu) h (Fit d)
+          = mkObs true (0, nu)
+                  (Some (sym_train_eg 0 (match nu with Some v => v | None => sym_nu_of 0 d end) d)) None)
+    <-> rule = KeepNu.
+Proof. exact e_nu_rule_characterised. Qed.
+Print Assumptions C19_nu_rule_characterised.
+
+Theorem C19_nu_kept_history_independent :
+  forall (P N D M : Type) (nu_of : P -> D -> N) (train : P -> N -> D -> M) (p : P) (nu : option N)
+         (h : list (op D)) (d : D),
+    after (e_step_gen nu_of train false KeepNu) (e_init p nu) h (Fit d)
+      = mkObs true (p, nu) (Some (train p (match nu with Some v => v | None => nu_of p d end) d)) None.
+Proof. exact e_keepnu_history_independent. Qed.
+Print Assumptions C19_nu_kept_history_independent.
+
+(* the re-initialisation rule (any function of fitted / warm_start) *)
+Theorem C19_reinit_rule_characterised :
+  forall (rule : bool -> bool -> bool) (in_place eval_first : bool),
+    (forall (h : list (op Z)) (d : Z),
+        after (a_step_gen sym_ws sym_init_net sym_train_from sym_perturb rule in_place eval_first)
+              (a_init sym_user_net (0, (false, false))) h (Fit d)
+          = mkObs true ((0, (false, false)), None) (Some (d, [d])) None)
+    <-> rule true false = true.
+Proof. exact a_rule_characterised. Qed.
+Print Assumptions C19_reinit_rule_characterised.
+
+(* general form: any rule that re-initialises a fitted estimator when warm_start = False; networks given
+   as lists, or a user module that is copied (and used by a never-fitted estimator as well) *)
+Theorem C19_reinit_rule_sufficient :
+  forall (P D M : Type) (ws : P -> bool) (user_net : P -> option M) (init_net : P -> D -> M)
+         (train_from : P -> M -> D -> M) (perturb : M -> M) (rule : bool -> bool -> bool)
+         (in_place eval_first : bool) (p : P) (h : list (op D)) (d : D),
+    ws p = false -> rule true false = true ->
+    user_net p = None \/ (in_place = false /\ rule false false = true) ->
+    after (a_step_gen ws init_net train_from perturb rule in_place eval_first) (a_init user_net p) h (Fit d)
+      = mkObs true (p, user_net p)
+              (Some (train_from p (match user_net p with Some m => m | None => init_net p d end) d)) None.
+Proof. exact ag_history_independent. Qed.
+Print Assumptions C19_reinit_rule_sufficient.
+
+(* a torch module given by the user (F15): history independent iff it is copied, not trained in place *)
+Theorem C19_user_module_characterised :
+  forall in_place eval_first : bool,
+    (forall (h : list (op Z)) (d : Z),
+        after (a_step_gen sym_ws sym_init_net sym_train_from sym_perturb (fun f w => negb f || negb w)
+                          in_place eval_first)
+              (a_init sym_user_net (0, (false, true))) h (Fit d)
+          = mkObs true ((0, (false, true)), Some (0, [])) (Some (0, [d])) None)
+    <-> in_place = false.
+Proof. exact a_in_place_characterised. Qed.
+Print Assumptions C19_user_module_characterised.
+
+(* predict leaves the estimator alone iff the network is put into evaluation mode before the forward pass *)
+Theorem C19_eval_mode_characterised :
+  forall (rule : bool -> bool -> bool) (in_place eval_first : bool),
+    (forall s : ast (Z * (bool * bool)) (Z * list Z),
+        fst (a_step_gen sym_ws sym_init_net sym_train_from sym_perturb rule in_place eval_first s Predict) = s)
+    <-> eval_first = true.
+Proof. exact a_eval_characterised. Qed.
+Print Assumptions C19_eval_mode_characterised.
+
+(* the old rule (before e8b1939) is the old machine *)
+Theorem C19_old_rule_is_old_machine :
+  forall (P D M : Type) (ws : P -> bool) (init_net : P -> D -> M) (train_from : P -> M -> D -> M) (perturb : M -> M)
+         (s : ast P M) (o : op D),
+    a_step_gen ws init_net train_from perturb (fun f w => negb f) true true s o
+      = adv_step_old ws init_net train_from s o.
+Proof. exact a_step_gen_old. Qed.
+Print Assumptions C19_old_rule_is_old_machine.
 
 (* ------------------------------------------------------------------ the theorems separate the
    repaired defects: the same histories on the OLD switches of the same step functions *)
